@@ -8,9 +8,11 @@ import (
 	"encoding/binary"
 	"fmt"
 	"iter"
+	"runtime"
 	"sort"
 	"strconv"
 	"strings"
+	"sync"
 	"sync/atomic"
 	"testing/synctest"
 	"time"
@@ -159,6 +161,18 @@ type eng struct {
 
 	watches []*watchRec
 
+	gcMu        sync.Mutex
+	gcGoid      uint64
+	graveAtScan []int
+	gcLockBad   string
+
+	// `at <point> <k>`: the next k op lines are executed when the following operation reaches <point>
+	inject    []string
+	injectAt  string
+	injectN   int
+	injecting bool
+	out       *hx.Out
+
 	// C08 oracles (independent of the model)
 	tombs     []*tomb           // deletions committed while iterators were open and not yet handed to all of them
 	gcScanSeq int               // event counter value at the last gcscan that found the collector at its gate
@@ -178,14 +192,60 @@ type tomb struct {
 
 var cur atomic.Pointer[eng]
 
+func goid() uint64 {
+	var buf [64]byte
+	n := runtime.Stack(buf[:], false)
+	f := bytes.Fields(buf[:n])
+	id, _ := strconv.ParseUint(string(f[1]), 10, 64)
+	return id
+}
+
 func init() {
-	statedb.VerifHook = func(point, who string) {
-		if who != "gc" {
+	// C10 oracle: the collector may only take the locks of tables it has something to collect from
+	statedb.VerifSetLockHook(func(event string, seq uint64) {
+		e := cur.Load()
+		if e == nil || e.ending.Load() || event != "locking" {
 			return
 		}
+		e.gcMu.Lock()
+		defer e.gcMu.Unlock()
+		if e.gcGoid != 0 && goid() == e.gcGoid {
+			for i, t := range e.tabs {
+				if statedb.VerifTableSeq(t) == seq && i < len(e.graveAtScan) && e.graveAtScan[i] == 0 {
+					e.gcLockBad = fmt.Sprintf(" !BAD:C10:collector-locks-table-without-garbage(t%d)", i)
+				}
+			}
+		}
+	})
+	statedb.VerifHook = func(point, who string) {
 		e := cur.Load()
 		if e == nil || e.ending.Load() {
 			return
+		}
+		if who != "gc" {
+			// deterministic interleaving: operations deferred by an `at <point> <k>` op run here, inside the
+			// operation that reaches the hook point (same goroutine)
+			if e.injectAt == point && len(e.inject) > 0 && !e.injecting {
+				e.injecting = true
+				lines := e.inject
+				e.inject, e.injectAt = nil, ""
+				for _, l := range lines {
+					e.Op(strings.Fields(l), l, e.out)
+				}
+				e.injecting = false
+			}
+			return
+		}
+		switch point {
+		case "gc-scanned":
+			e.gcMu.Lock()
+			e.gcGoid = goid()
+			e.graveAtScan = nil
+			rtxn := e.db.ReadTxn()
+			for _, t := range e.tabs {
+				e.graveAtScan = append(e.graveAtScan, statedb.VerifGraveyardLen(rtxn, t))
+			}
+			e.gcMu.Unlock()
 		}
 		switch point {
 		case "gc-triggered":
@@ -508,11 +568,41 @@ func (e *eng) watchOracle(event string) string {
 
 // ---------------------------------------------------------------- ops
 func (e *eng) Op(f []string, line string, out *hx.Out) {
+	e.out = out
+	if f[0] == "at" {
+		e.injectAt, e.injectN, e.inject = f[1], atoi(f[2]), nil
+		out.P("M:* ok")
+		return
+	}
+	if e.injectN > 0 && !e.injecting {
+		e.injectN--
+		e.inject = append(e.inject, line) // printed when executed inside the next operation
+		return
+	}
+	if !e.injecting && len(e.inject) > 0 {
+		defer func() {
+			// the hook point was not reached by this operation: run the deferred ops now (keeps the line count)
+			if len(e.inject) > 0 {
+				lines := e.inject
+				e.inject, e.injectAt = nil, ""
+				e.injecting = true
+				for _, l := range lines {
+					e.Op(strings.Fields(l), l, out)
+				}
+				e.injecting = false
+			}
+		}()
+	}
 	bad := ""
 	emit := func(tag, format string, a ...any) {
 		if bad == "" && e.wtxn == nil {
 			bad = e.c08Oracle()
 		}
+		e.gcMu.Lock()
+		if bad == "" && e.gcLockBad != "" {
+			bad, e.gcLockBad = e.gcLockBad, ""
+		}
+		e.gcMu.Unlock()
 		out.P("%s %s%s%s", tag, fmt.Sprintf(format, a...), bad, e.snapshotsFrozen())
 	}
 	switch f[0] {
